@@ -2,6 +2,8 @@ import Ecal.Model.PrattTable
 import Ecal.Lemmas.C08Pratt
 import Ecal.Lemmas.C08Quote
 import Ecal.Lemmas.C08Minimal
+import Ecal.Lemmas.C08QuoteReal
+import Ecal.Lemmas.C08Templates
 /-!
 # C08 — formatting preserves program meaning and is idempotent
 
@@ -13,7 +15,9 @@ Which theorem is about which model:
   `ndInner`), and the printer restricted to operator trees (children first, parentheses by
   `ppNeedsBrackets`). Theorems `printer_brackets_suffice`, `print_parse_expr_partial`,
   `print_idempotent_expr_partial`, `mul_right_brackets_witness` are about this model.
-* **String-literal model** (`Ecal.C08.Q`, Lemmas/C08Quote.lean): `quote_lex_roundtrip`,
+* **Real printer and lexer models**: `quote_lex_roundtrip` is about `Ecal.Print.quote` (Printer.lean) and
+  `Ecal.Lex.lexValue` (Lexer.lean) — the functions the drivers of C08 / C07 / C18 run.
+* **Simplified string-literal model** (`Ecal.C08.Q`, Lemmas/C08Quote.lean): `quote_lex_roundtrip_simple_model`,
   `string_kind_roundtrip_partial`, `raw_string_kind_witness`.
 * **Full printer model** (`Ecal.Print`, Model/Printer.lean — text with templates, indentation, comments):
   tied to prettyprinter.go byte for byte by the correspondence run; theorems
@@ -162,10 +166,29 @@ def lexLit (fuel : Nat) : Q.Str → Option (Lit × Q.Str)
     | none => none
   | _ => none
 
-/-- **lex (quote s) = s** for every string (code points below 2³²), whatever follows the literal:
-    the scan for the closing quote (escape tracking as repaired in 02ff58e) stops exactly at the end of
-    the quoted text and unquoting returns the value. -/
-theorem quote_lex_roundtrip (isPrint : Nat → Bool) (s rest : Q.Str) (hs : ∀ c ∈ s, c < 4294967296) :
+/-- **lex (quote v) = v on the REAL models** — the functions the drivers run: `Ecal.Print.quote` (what the
+    printer model writes for a string token, model of strconv.Quote) and `Ecal.Lex.lexValue` (the string
+    lexer of the lexer model: opener, scan for the closing quote with the escape tracking of fix 02ff58e,
+    strconv.Unquote). Wherever the printed literal stands in the input (after `pre`, before `rest`),
+    `lexValue` started at its first byte emits exactly one token — a string token with value `v`,
+    `allowEscapes = true` (interpolating kind), `identifier = false`, positioned at the literal — and stops
+    directly behind the literal. For EVERY byte string `v`: invalid UTF-8, U+FFFD, control characters,
+    quotes, backslashes, `{{`. -/
+theorem quote_lex_roundtrip (l0 : Ecal.Lex.L) (pre v rest : List Nat) (hv : ∀ b ∈ v, b < 256)
+    (hinp : l0.inp = (pre ++ (Ecal.Print.quote v ++ rest)).toArray) (hpos : l0.pos = pre.length) :
+    ∃ t : Ecal.Lex.Tok, (Ecal.Lex.lexValue l0).2 = Ecal.Lex.Next.token ∧
+      (Ecal.Lex.lexValue l0).1.toks = l0.toks.push t ∧
+      t.id = Ecal.Lex.tSTRING ∧ t.val = v ∧ t.allowEscapes = true ∧ t.identifier = false ∧
+      t.pos = pre.length ∧ (Ecal.Lex.lexValue l0).1.pos = pre.length + (Ecal.Print.quote v).length ∧
+      (Ecal.Lex.lexValue l0).1.inp = l0.inp :=
+  QR.lexValue_quote l0 pre v rest hv hinp hpos
+
+example : (Ecal.Lex.lexValue { inp := (Ecal.Print.quote [255, 34, 92, 10, 239, 191, 189]).toArray }).1.toks.toList.map
+    (fun t => (t.id, t.val, t.allowEscapes)) = [(Ecal.Lex.tSTRING, [255, 34, 92, 10, 239, 191, 189], true)] := by decide
+
+/-- The same on the simplified string model of the prototype (escapes `\\"`, `\\\\`, `\\n`, `\\U…`;
+    parametric in the printability predicate) — kept for `string_kind_roundtrip_partial`. -/
+theorem quote_lex_roundtrip_simple_model (isPrint : Nat → Bool) (s rest : Q.Str) (hs : ∀ c ∈ s, c < 4294967296) :
     ∃ body, Q.scanBody (Q.quoteBody isPrint s ++ 34 :: rest) false = some (body, rest) ∧
       Q.unq (s.length + 1) body = some s :=
   Q.quote_lex_roundtrip isPrint s rest hs
@@ -192,5 +215,36 @@ theorem raw_string_kind_witness :
   refine ⟨⟨[], true⟩, rfl, ?_⟩
   intro fuel
   cases fuel <;> simp [lexLit, printLit, Q.quote, Q.quoteBody, Q.scanBody, Q.unq]
+
+/-! ## templates on the REAL parser model (`Ecal.Parse.run`, the model of C07's `parse_wellformed`)
+
+Token level, comment-free. Proved so far: the terminal template and the prefix template (with a hole
+hypothesis in continuation form). NOT proved yet (covered by the correspondence run only): infix template
+on this model, assignment, if/elif/else, loops, try/except/otherwise/finally, func, return with value,
+import, sink, mutex, list / map literals, funccall, composition access, statement lists — and therefore
+`print_parse_stmt_partial`. -/
+
+/-- **Terminal template re-parses** (`break`, `continue`, `true`, `false`, `null`, number and string tokens):
+    a token whose null denotation is `ndTerm`, followed by a token that does not bind tighter than `rbp`, is
+    read back by `run` as its own node, and the parser stops at the follower. -/
+theorem template_terminal_reparses (f rbp bb : Nat) (t nx : Ecal.Lex.Tok) (rest : List Ecal.Lex.Tok)
+    (hn : TP.Real nx) (hterm : (TP.nodeOf bb t).nud = .term) (hb : (TP.nodeOf bb nx).binding ≤ rbp) :
+    Ecal.Parse.run (f+2) rbp (TP.st bb (TP.nodeOf bb t) (nx :: rest)) =
+      .ok (TP.nodeOf bb t) (TP.st bb (TP.nodeOf bb nx) rest) :=
+  TP.run_term f rbp bb t nx rest hn hterm hb
+
+/-- **Prefix template re-parses** (`not x`, `-x`, `+x`, `let x`, sink attributes `kindmatch x` … `suppresses x`):
+    if the hole's tokens are read back as `v` with right binding `binding + 20` and the parser then stands
+    in front of a token not binding tighter than `rbp`, keyword + hole is read back as the keyword's node
+    with the single child `v`. -/
+theorem template_prefix_reparses (f rbp bb : Nat) (t h : Ecal.Lex.Tok) (ts' : List Ecal.Lex.Tok)
+    (v nxn : Ecal.Parse.Node) (rest : List Ecal.Lex.Tok) (hh : TP.Real h)
+    (hpre : (TP.nodeOf bb t).nud = .prefix)
+    (hole : Ecal.Parse.run (f+1) ((TP.nodeOf bb t).binding + 20) (TP.st bb (TP.nodeOf bb h) ts') =
+      .ok v (TP.st bb nxn rest))
+    (hb : nxn.binding ≤ rbp) :
+    Ecal.Parse.run (f+3) rbp (TP.st bb (TP.nodeOf bb t) (h :: ts')) =
+      .ok ((TP.nodeOf bb t).add (some v)) (TP.st bb nxn rest) :=
+  TP.run_prefix f rbp bb t h ts' v nxn rest hh hpre hole hb
 
 end Ecal.Props.C08
